@@ -27,6 +27,11 @@ pub fn accepted_document_check(name: &str, codec: &XmlCodec, class: &str, doc: &
     let parsed = match xmlcanon::parse(doc) {
         Ok(p) => p,
         Err(e) => {
+            // the independent reader is stricter than XML 1.0 (fifth edition) about non-ASCII name characters
+            // (it refuses U+FEFF, a NameStartChar by [#xFDF0-#xFFFD]): names outside ASCII are a stated don't-care
+            if (e.contains("invalid attribute") || e.contains("invalid name") || e.contains("invalid element")) && non_ascii_in_markup(doc) {
+                return XmlVerdict::DontCare("non-ascii-name");
+            }
             // classify by repairing the known leniencies one after the other
             let has_elem = {
                 // outside CDATA sections
@@ -97,6 +102,22 @@ pub fn accepted_document_check(name: &str, codec: &XmlCodec, class: &str, doc: &
     XmlVerdict::Accepted
 }
 
+
+/// is there a non-ASCII character inside a tag (between '<' and '>', outside quoted attribute values)?
+fn non_ascii_in_markup(doc: &str) -> bool {
+    let (mut in_tag, mut quote) = (false, None::<char>);
+    for ch in doc.chars() {
+        match (in_tag, quote, ch) {
+            (false, _, '<') => in_tag = true,
+            (true, None, '>') => in_tag = false,
+            (true, None, '"' | '\'') => quote = Some(ch),
+            (true, Some(q), c) if c == q => quote = None,
+            (true, None, c) if !c.is_ascii() => return true,
+            _ => {}
+        }
+    }
+    false
+}
 
 fn replace_leaf_text(e: &mut Elem, name: &str, text: &str, marker: &str) -> bool {
     let is_leaf = !e.children.iter().any(|n| matches!(n, Node::Elem(_)));
